@@ -459,6 +459,10 @@ def run(pid, P, t0, tmpdir):
             log("simulator nondeterminism: no verdict")
             return 2
         cls = r1[0]
+        if cls == "harness":
+            log("INFRA the harness itself reported an internal inconsistency (run %d): %s" % (c["run"], r1[2]))
+            shutil.copy(cand, os.path.join(VERIF, "replays", "harness-bug.replay"))
+            return 2
         if cls in seen_classes:
             continue
         seen_classes.add(cls)
